@@ -1,8 +1,9 @@
 import Girc.Proofs.Pure
+import Girc.Proofs.ProtocolA
 import Girc.Gen.Facts
 /- C14 — CTCP encoding round-trips; reply discipline. Property theorems only. -/
 namespace Girc.Props.C14
-open Girc Girc.Model
+open Girc Girc.Model Girc.Spec Girc.Proofs.ProtocolA
 
 theorem gen_tag_byte1 : ∀ b : Byte, Gen.DecodeCTCP_bp0 b = !Model.ctcpTagByte b := by decide +kernel
 theorem gen_tag_byte2 : ∀ b : Byte, Gen.DecodeCTCP_bp1 b = !Model.ctcpTagByte b := by decide +kernel
@@ -32,5 +33,31 @@ theorem wrong_shape (e : Event) (h : (e.command ≠ PRIVMSG ∧ e.command ≠ NO
 
 example : decodeCTCP { command := PRIVMSG, params := [[0x23], encodeCTCPRaw [0x50, 0x49] [0x61, 0x20, 0x01, 0x62]] }
     = some ⟨none, [0x50, 0x49], [0x61, 0x20, 0x01, 0x62], false⟩ := by decide
+
+/-! ### Reply discipline -/
+
+/-- Every automatic answer is a NOTICE to the (folded) requester, produced only for a request
+    (not a reply) that carries a source, and never for ACTION. -/
+theorem reply_discipline (cfg : Cfg) (ev : CTCPEvent) (time idle : Bytes) :
+    ∀ o ∈ ctcpCall cfg ev time idle,
+      ev.reply = false ∧ ev.command ≠ tACTION ∧
+      ∃ src typ msg, ev.source = some src ∧ typ ≠ [] ∧
+        o = Out.send { command := NOTICE, params := [fold src.name, encodeCTCPRaw typ msg] } :=
+  Proofs.ProtocolA.reply_discipline cfg ev time idle
+
+/-- At the level of received events: CTCP answers come only from PRIVMSG events. -/
+theorem replies_only_to_privmsg (cfg : Cfg) (e : Event) (ev : CTCPEvent) (time idle : Bytes)
+    (hd : decodeCTCP e = some ev) (hne : ctcpCall cfg ev time idle ≠ []) :
+    e.command = PRIVMSG ∧ e.source.isSome :=
+  Proofs.ProtocolA.replies_only_to_privmsg cfg e ev time idle hd hne
+
+/-- No reply loop: whatever a client answers automatically, received by ANY client (any
+    configuration, as a NOTICE from anyone), triggers no automatic answer. -/
+theorem no_reply_loop (cfg cfg' : Cfg) (ev : CTCPEvent) (time idle time' idle' : Bytes) :
+    ∀ o ∈ ctcpCall cfg ev time idle, ∀ reply, o = Out.send reply →
+      ∀ (src' : Option Source) (tags' : Option Tags) (ev' : CTCPEvent),
+        decodeCTCP { reply with source := src', tags := tags' } = some ev' →
+        ctcpCall cfg' ev' time' idle' = [] :=
+  Proofs.ProtocolA.no_reply_loop cfg cfg' ev time idle time' idle'
 
 end Girc.Props.C14
